@@ -138,7 +138,7 @@ class RecipeRun:
             sl = slice_of(h, sel)
             if len(self.held) < 40:
                 self.held.append((f"slice of {name} handed to call {self.idx}", sl, fingerprint(self.rep, sl)))
-                self.held_info.append((name, sel))
+                self.held_info.append((name, sel, h))        # h: the very plate object the slice was taken from
             return sl
         return h
 
@@ -892,8 +892,7 @@ class RecipeRun:
         rep = self.rep
         for j in list(range(len(self.held)))[:2] + list(range(len(self.held)))[-1:]:
             label, sl, _ = self.held[j]
-            name, sel = self.held_info[j]
-            h = self.handles.get(name) or self.obj(name)
+            name, sel, h = self.held_info[j]
             if h is None or not isinstance(h, rep.Plate):
                 continue
             what = M.KIND_CODE[M.LIQUID]
